@@ -74,9 +74,11 @@ class Authenticator:
         if auth_event.kind != 22242:
             raise AuthenticationError("invalid: Wrong kind. Must be 22242.")
         since = time() - auth_event.created_at
-        if since >= 600:
+        # written as what must hold: a NaN timestamp (which the JSON parser
+        # accepts) fails every comparison
+        if not since < 600:
             raise AuthenticationError("invalid: Too old")
-        elif since <= -600:
+        elif not since > -600:
             raise AuthenticationError("invalid: Too new")
         found_relay = found_challenge = False
         for tag in auth_event.tags:
